@@ -249,7 +249,9 @@ func checkC19(tier, replay string) int {
 			ctx.Violation("C19:getinfo:"+a, fmt.Sprintf("GetInfo(%q) returns %v for a target without syscall table; compilation there would produce a filter", a, info), nil)
 		}
 	}
-	ctx.Cov["evaluations"] = asserts + built + int64(len(archs))
+	emulated := c19ImplicitArch(ctx, repo, scratch, archs, withTable)
+	ctx.Cov["goarchs_emulated_for_the_implicit_architecture_path"] = emulated
+	ctx.Cov["evaluations"] = asserts + built + int64(len(archs)) + int64(emulated)
 	ctx.Cov["distinct_nontrivial"] = built
 	ctx.Cov["targets"] = len(targets)
 	ctx.Cov["targets_built_with_assertions"] = built
@@ -263,7 +265,7 @@ func checkC19(tier, replay string) int {
 	}
 	sort.Strings(un)
 	ctx.Cov["constant_names_without_oracle_value"] = un
-	ctx.Cov["rule"] = "every GOOS/GOARCH pair of `go tool dist list` is built (thorough: vetted) with an overlay-added file per package that asserts, for every constant declared in the files selected for that target, equality with the vendored Linux UAPI value (two array-index expressions that only compile if equal; ENOSYS is 89 on linux/mips*, 38 elsewhere); file selection (loader vs stub) from go list; the stub file is parsed: no imports, no call expressions, Supported returns the literal false; GetInfo(goarch) for every GOARCH must have a table exactly for 386/amd64/arm/arm64; non-trivial = targets whose build with assertions succeeded"
+	ctx.Cov["rule"] = "every GOOS/GOARCH pair of `go tool dist list` is built (thorough: vetted) with an overlay-added file per package that asserts, for every constant declared in the files selected for that target, equality with the vendored Linux UAPI value (two array-index expressions that only compile if equal; ENOSYS is 89 on linux/mips*, 38 elsewhere); file selection (loader vs stub) from go list; the stub file is parsed: no imports, no call expressions, Supported returns the literal false; GetInfo(goarch) for every GOARCH must have a table exactly for 386/amd64/arm/arm64; for every GOARCH a probe is built with an overlay that substitutes runtime.GOARCH in the library sources and run on the host: with the architecture left implicit, GetInfo(\"\") and Policy.Assemble must fail with an unsupported-architecture error on targets without tables and succeed on the four with tables; non-trivial = targets whose build with assertions succeeded"
 	ctx.Sample(map[string]any{"target": "darwin/arm64", "assertion": "var _ = [1]struct{}{}[uint64(ActionAllow)-2147418112]"})
 	ctx.Assumptions = []string{"foreign targets are compiled and constant-evaluated by the real compiler, not executed", "vendored UAPI values from this image's linux/seccomp.h, linux/prctl.h, asm-generic/errno.h"}
 	return ctx.Finish()
@@ -312,4 +314,80 @@ func stubFacts(ctx *evid.Ctx, path string) {
 			ctx.Violation("C19:stub:supported", "Supported() on non-Linux targets is not `return false`", nil)
 		}
 	}
+}
+
+// c19ImplicitArch runs, for every GOARCH, the code path a binary built for that target takes when the architecture is
+// left implicit (GetInfo(""), Policy.Assemble with no architecture set): runtime.GOARCH is substituted through an overlay.
+func c19ImplicitArch(ctx *evid.Ctx, repo, scratch string, archs []string, withTable map[string]bool) int {
+	var srcs []string
+	for _, dir := range []string{repo, filepath.Join(repo, "arch")} {
+		m, _ := filepath.Glob(filepath.Join(dir, "*.go"))
+		for _, f := range m {
+			if strings.HasSuffix(f, "_test.go") {
+				continue
+			}
+			b, err := os.ReadFile(f)
+			if err == nil && strings.Contains(string(b), "runtime.GOARCH") {
+				srcs = append(srcs, f)
+			}
+		}
+	}
+	if len(srcs) == 0 {
+		ctx.Capped("no source file mentions runtime.GOARCH: the implicit-architecture path could not be emulated")
+		return 0
+	}
+	var done int64
+	parallelFor(len(archs), func(i int) {
+		ga := archs[i]
+		overlay := map[string]string{}
+		for k, f := range srcs {
+			b, _ := os.ReadFile(f)
+			txt := strings.ReplaceAll(string(b), "runtime.GOARCH", fmt.Sprintf("%q", ga)) + "\n\nvar _ = runtime.Compiler // keeps the import used (added by the verification harness)\n"
+			dst := filepath.Join(scratch, fmt.Sprintf("implicit_%s_%d.go", ga, k))
+			os.WriteFile(dst, []byte(txt), 0o644)
+			overlay[f] = dst
+		}
+		ob, _ := json.Marshal(map[string]any{"Replace": overlay})
+		of := filepath.Join(scratch, "implicit_"+ga+".json")
+		os.WriteFile(of, ob, 0o644)
+		bin := filepath.Join(scratch, "archprobe-"+ga)
+		args := []string{"build"}
+		if mf := os.Getenv("VERIF_MODFILE"); mf != "" {
+			args = append(args, "-modfile="+mf)
+		}
+		args = append(args, "-overlay", of, "-o", bin, "./cmd/archprobe")
+		bc := exec.Command("go", args...)
+		bc.Dir = filepath.Join(evid.Root(), "harness")
+		if b, err := bc.CombinedOutput(); err != nil {
+			ctx.Capped(fmt.Sprintf("probe for GOARCH %s does not build: %.300s", ga, b))
+			return
+		}
+		out, err := exec.Command(bin).Output()
+		var r map[string]any
+		if err != nil || json.Unmarshal(bytes.TrimSpace(out), &r) != nil {
+			ctx.Capped("probe for GOARCH " + ga + " failed to run")
+			return
+		}
+		atomic.AddInt64(&done, 1)
+		rep := map[string]any{"goarch": ga, "probe": r}
+		if withTable[ga] {
+			if r["getinfo_err"] != nil || r["default_only_err"] != nil || r["named_err"] != nil {
+				ctx.Violation("C19:implicit-arch:"+ga, fmt.Sprintf("a binary built for GOARCH %s fails although a syscall table exists: %v", ga, r), rep)
+			}
+			return
+		}
+		if r["getinfo_err"] == nil {
+			ctx.Violation("C19:implicit-arch:getinfo:"+ga, fmt.Sprintf("in a binary built for GOARCH %s (no syscall table) GetInfo(\"\") succeeds: %v", ga, r), rep)
+		}
+		for _, k := range []string{"default_only", "named"} {
+			e, _ := r[k+"_err"].(string)
+			n, _ := r[k+"_len"].(float64)
+			if e == "" || n != 0 {
+				ctx.Violation("C19:implicit-arch:assemble:"+ga, fmt.Sprintf("in a binary built for GOARCH %s (no syscall table) Policy.Assemble of a %s policy produces a filter (%d instructions, err=%q)", ga, k, int(n), e), rep)
+			} else if !strings.Contains(e, "unsupported arch") {
+				ctx.Violation("C19:implicit-arch:error-kind:"+ga, fmt.Sprintf("in a binary built for GOARCH %s Policy.Assemble of a %s policy fails with %q instead of an unsupported-architecture error", ga, k, e), rep)
+			}
+		}
+	})
+	return int(done)
 }
